@@ -772,6 +772,9 @@ func (e *Enc) encodeCopy(args []ssa.Value, v *ssa.Call, st *State) {
 // result is ordered with respect to the postcondition of Less.
 func (e *Enc) encodeSortCall(common *ssa.CallCommon, st *State) bool {
 	sc := common.StaticCallee()
+	if sc != nil && sc.Pkg != nil && sc.Pkg.Pkg.Path() == "sort" && (sc.Name() == "Slice" || sc.Name() == "SliceStable") && len(common.Args) == 2 {
+		return e.encodeSortSliceCall(common, sc.Name() == "SliceStable", st)
+	}
 	if sc == nil || sc.Pkg == nil || sc.Pkg.Pkg.Path() != "sort" || (sc.Name() != "Sort" && sc.Name() != "Stable") || len(common.Args) != 1 {
 		return false
 	}
@@ -875,4 +878,120 @@ func callsRecover(fn *ssa.Function) bool {
 		}
 	}
 	return false
+}
+
+
+// encodeSortSliceCall models sort.Slice / sort.SliceStable(x, less) when `less` is a closure made in
+// this function whose contract says `result == <expr over i, j and captured variables>`: the elements
+// of x are permuted, every other array is untouched, the result is ordered with respect to that
+// expression (read in the state after the sort) and, for SliceStable, elements that compare equal keep
+// their relative order (assumed contract of package sort).
+func (e *Enc) encodeSortSliceCall(common *ssa.CallCommon, stable bool, st *State) bool {
+	mi, ok := common.Args[0].(*ssa.MakeInterface)
+	if !ok {
+		return false
+	}
+	sl, ok := mi.X.Type().Underlying().(*types.Slice)
+	if !ok {
+		return false
+	}
+	cv := common.Args[1]
+	for {
+		if ct, ok := cv.(*ssa.ChangeType); ok {
+			cv = ct.X
+			continue
+		}
+		break
+	}
+	mc, ok := cv.(*ssa.MakeClosure)
+	if !ok {
+		return false
+	}
+	lessFn, ok := mc.Fn.(*ssa.Function)
+	if !ok || len(lessFn.Params) != 2 {
+		return false
+	}
+	lessKey := funcKey(lessFn)
+	lc := e.ctx.contracts.Funcs[lessKey]
+	if lc == nil {
+		return false
+	}
+	var lessExpr Expr
+	for _, cl := range lc.Ensures {
+		if b, ok := cl.E.(*EBinary); ok && (b.Op == "<==>" || b.Op == "==") {
+			if id, ok := b.X.(*EIdent); ok && id.Name == "result" {
+				lessExpr = b.Y
+			}
+		}
+	}
+	if lessExpr == nil {
+		return false
+	}
+	s := e.sorts()
+	h := s.ElemHeap(sl.Elem())
+	old := st.get(h)
+	id := fmt.Sprint(e.count("sortcall"))
+	x := e.declare("sort$"+id+"$arg", "Slice")
+	e.fact("(= " + x + " " + e.term(mi.X) + ")")
+	qa, qb := "qa!"+id, "qb!"+id
+	// the preconditions of the comparison closure must hold for every pair of indices of the slice
+	// (before the sort; they are preserved by permuting the elements)
+	for ri, rcl := range lc.Requires {
+		vars := map[string]TV{
+			lessFn.Params[0].Name(): {Term: qa, Sort: "Int", T: types.Typ[types.Int]},
+			lessFn.Params[1].Name(): {Term: qb, Sort: "Int", T: types.Typ[types.Int]},
+		}
+		save := e.curClosureResolve
+		e.curClosureResolve = e.closureResolver(mc)
+		c := e.calleeCtx(lc, st, nil, vars, fmt.Sprintf("%s requires#%d at the sort call in %s", lessKey, ri+1, e.key))
+		t := c.boolTerm(rcl.E)
+		e.curClosureResolve = save
+		goal := fmt.Sprintf("(forall ((%s Int) (%s Int)) (=> (and (<= 0 %s) (< %s (s.len %s)) (<= 0 %s) (< %s (s.len %s))) %s))", qa, qb, qa, qa, x, qb, qb, x, t)
+		e.oblig("pre", fmt.Sprintf("pre[less-callback.%d]@sort#%s", ri+1, id), goal, rcl.Src+"   [precondition of the comparison closure "+lessKey+" for every pair of indices]", nil)
+	}
+	nh := e.declare("sort$"+id+"$"+h.Name, h.Sort)
+	st.set(h, nh)
+	perm, inv := q("sort$"+id+"$perm"), q("sort$"+id+"$inv")
+	e.emit(fmt.Sprintf("(declare-fun %s (Int) Int)", perm))
+	e.emit(fmt.Sprintf("(declare-fun %s (Int) Int)", inv))
+	newArr := "(select " + nh + " (s.arr " + x + "))"
+	oldArr := "(select " + old + " (s.arr " + x + "))"
+	qi := "qs!" + id
+	e.fact(fmt.Sprintf("(forall ((%s Int)) (! (=> (and (<= 0 %s) (< %s (s.len %s))) (and (<= 0 (%s %s)) (< (%s %s) (s.len %s)) (= (select %s (at (s.off %s) %s)) (select %s (at (s.off %s) (%s %s)))))) :pattern ((select %s (at (s.off %s) %s))) :pattern ((%s %s))))",
+		qi, qi, qi, x, perm, qi, perm, qi, x, newArr, x, qi, oldArr, x, perm, qi, newArr, x, qi, perm, qi))
+	e.fact(fmt.Sprintf("(forall ((%s Int)) (! (=> (and (<= 0 %s) (< %s (s.len %s))) (and (<= 0 (%s %s)) (< (%s %s) (s.len %s)) (= (select %s (at (s.off %s) (%s %s))) (select %s (at (s.off %s) %s))))) :pattern ((select %s (at (s.off %s) %s))) :pattern ((%s %s))))",
+		qi, qi, qi, x, inv, qi, inv, qi, x, newArr, x, inv, qi, oldArr, x, qi, oldArr, x, qi, inv, qi))
+	e.fact(fmt.Sprintf("(forall ((%s Int)) (! (and (= (%s (%s %s)) %s) (= (%s (%s %s)) %s)) :pattern ((%s %s)) :pattern ((%s %s))))",
+		qi, inv, perm, qi, qi, perm, inv, qi, qi, perm, qi, inv, qi))
+	e.fact(fmt.Sprintf("(forall ((%s Int)) (! (=> (not (= %s (s.arr %s))) (= (select %s %s) (select %s %s))) :pattern ((select %s %s))))", qi, qi, x, nh, qi, old, qi, nh, qi))
+	e.fact(fmt.Sprintf("(forall ((%s Int)) (! (=> (or (< %s (s.off %s)) (>= %s (+ (s.off %s) (s.len %s)))) (= (select %s %s) (select %s %s))) :pattern ((select %s %s))))", qi, qi, x, qi, x, x, newArr, qi, oldArr, qi, newArr, qi))
+	// less(first, second) over the sorted array, captured variables read in the state after the sort
+	lessAt := func(first, second string) string {
+		vars := map[string]TV{
+			lessFn.Params[0].Name(): {Term: first, Sort: "Int", T: types.Typ[types.Int]},
+			lessFn.Params[1].Name(): {Term: second, Sort: "Int", T: types.Typ[types.Int]},
+		}
+		save := e.curClosureResolve
+		e.curClosureResolve = e.closureResolver(mc)
+		c := e.calleeCtx(lc, st, nil, vars, "sorted-by "+lessKey)
+		t := c.boolTerm(lessExpr)
+		e.curClosureResolve = save
+		return t
+	}
+	inRange := fmt.Sprintf("(and (<= 0 %s) (< %s %s) (< %s (s.len %s)))", qa, qa, qb, qb, x)
+	e.fact(fmt.Sprintf("(forall ((%s Int) (%s Int)) (=> %s (not %s)))", qa, qb, inRange, lessAt(qb, qa)))
+	if stable {
+		e.fact(fmt.Sprintf("(forall ((%s Int) (%s Int)) (=> (and %s (not %s)) (< (%s %s) (%s %s))))", qa, qb, inRange, lessAt(qa, qb), perm, qa, perm, qb))
+	}
+	// ghost GsortOrigin: where the element now at position k came from (contracts state stability
+	// and "same elements" over it)
+	if gv, ok := e.ctx.contracts.GVars["GsortOrigin"]; ok {
+		_ = gv
+		gh := Heap{Name: "G$GsortOrigin", Sort: "(Array Int Int)", Kind: HGhost}
+		ng := e.declare("sort$"+id+"$origin", gh.Sort)
+		st.set(gh, ng)
+		e.fact(fmt.Sprintf("(forall ((%s Int)) (! (= (select %s %s) (%s %s)) :pattern ((select %s %s))))", qi, ng, qi, perm, qi, ng, qi))
+	}
+	e.assumed["sort."+map[bool]string{true: "SliceStable", false: "Slice"}[stable]+" (permutes its argument; ordered by the contract of "+lessKey+")"] = true
+	return true
 }
